@@ -12,6 +12,7 @@ import (
 
 	"github.com/Trendyol/go-dcp/config"
 	"github.com/Trendyol/go-dcp/couchbase"
+	"github.com/Trendyol/go-dcp/metadata"
 	"github.com/Trendyol/go-dcp/stream"
 	"github.com/Trendyol/go-dcp/tracing"
 	"github.com/couchbase/gocbcore/v10"
@@ -136,4 +137,10 @@ func newLBFromCluster(c *simnode.Cluster) *lbEnv {
 func newRealStream(e *lbEnv, fm *fakeMeta, cons *fakeConsumer, disc *fakeDiscovery, stopCh chan struct{}) stream.Stream {
 	return stream.NewStream(e.client, fm, e.cfg, &couchbase.Version{Major: 7}, &couchbase.BucketInfo{BucketType: "membase"},
 		disc, cons, map[uint32]string{}, stopCh, &fakeHandler{}, tracing.NewTracerComponent())
+}
+
+// streamNew: the real stream on the real client with an arbitrary metadata backend.
+func streamNew(e *lbEnv, md metadata.Metadata, cons *fakeConsumer, disc *fakeDiscovery) stream.Stream {
+	return stream.NewStream(e.client, md, e.cfg, &couchbase.Version{Major: 7}, &couchbase.BucketInfo{BucketType: "membase"},
+		disc, cons, map[uint32]string{}, make(chan struct{}, 1), &fakeHandler{}, tracing.NewTracerComponent())
 }
